@@ -105,6 +105,102 @@ def _count(members) -> int:
     return sum(1 + (_count(m['m']) if m['t'] == 'n' else 0) for m in members)
 
 
+def _ext_of(name: str) -> str:
+    ext = [e for e in C.ACCEPTED_EXTS if name.endswith(e)]
+    return max(ext, key=len) if ext else '?'
+
+
+# ---------------------------------------------------------------------------------------
+# WAVE 4 — histories: one or more archive files on disk, a SEQUENCE of passes over them in one process
+# ---------------------------------------------------------------------------------------
+#: pass op -> (entry point, names-only); every entry point the anchors name that reads an archive:
+#:   read       read_page_archive_file(path)                 list   read_page_archive_files([path, …])
+#:   str        read_page_archive_files(path)  (a str)        extractor  Extractor(path) iterated directly
+#:   7zfile     read_page_7z_file(path)  (.7z only)           peek   read_page_archive_file, first item only,
+#:   parse      parse_pagexml_files_from_archive(path)               the generator is left suspended
+#: `extractor-again` iterates the Extractor object an earlier pass built for the same file once more;
+#: `rewrite` writes a DIFFERENT member set under the SAME file name (the next answer must be the new content)
+READ_OPS = {'content': ('read', False), 'names': ('read', True),
+            'list-content': ('list', False), 'list-names': ('list', True),
+            'str-content': ('str', False), 'str-names': ('str', True),
+            'extractor-content': ('extractor', False), 'extractor-names': ('extractor', True),
+            'extractor-again': ('extractor', None),
+            '7z-content': ('7zfile', False), '7z-names': ('7zfile', True),
+            'peek-content': ('peek', False), 'peek-names': ('peek', True),
+            'parse': ('parse', None)}
+
+
+def _reread_plan(inp):
+    """states: [(archive index, member tree)] (the initial archives, then one per rewrite);
+    plan: per pass None (rewrite) or {'entry', 'names_only', 'ons', 'states', 'history'} where history is
+    '' (first read of a fresh file), 'reread' (the file was read before in this process) or 'rewritten'
+    (another member set was written under this file name before)"""
+    states = [(i, a['members']) for i, a in enumerate(inp['archives'])]
+    cur = {i: i for i in range(len(inp['archives']))}
+    touched, rewritten, ex_mode = set(), set(), {}
+    plan = []
+    for p in inp['passes']:
+        on = p.get('on', 0)
+        ons = list(on) if isinstance(on, list) else [on]
+        if p['op'] == 'rewrite':
+            states.append((ons[0], p['members']))
+            cur[ons[0]] = len(states) - 1
+            rewritten.add(ons[0])
+            plan.append(None)
+            continue
+        entry, no = READ_OPS[p['op']]
+        if entry != 'list':
+            ons = ons[:1]
+        if entry == 'extractor':
+            if no is None:
+                no = ex_mode.get(ons[0], False)
+            ex_mode[ons[0]] = no
+        hist = 'rewritten' if any(o in rewritten for o in ons) else 'reread' if any(o in touched for o in ons) else ''
+        plan.append({'entry': entry, 'names_only': no, 'ons': ons, 'states': [cur[o] for o in ons], 'history': hist})
+        touched.update(ons)
+    return states, plan
+
+
+def _drop_empty_xml(members):
+    """member tree without empty `.xml` members (for parse passes: an empty document is C13's subject)"""
+    out = []
+    for m in members:
+        if m['t'] == 'f' and m['p'].endswith('.xml') and m['d'] == '':
+            continue
+        out.append(dict(m, m=_drop_empty_xml(m['m'])) if m['t'] == 'n' else m)
+    return out
+
+
+POOL_XML = ['0001.xml', '0002.xml', 'page.xml']
+POOL_OTHER = ['notes.txt', 'img.jpg', 'data.dat']
+
+
+def _dup_names(rng: random.Random, members, p: float = 0.6):
+    """rare shape: the SAME base name in different directories (also inside nested archives and across outer /
+    inner archives): base names redrawn from a small pool, full paths stay distinct within one container"""
+    used = {m['p'].rstrip('/') for m in members}
+    out = []
+    for m in members:
+        m = dict(m)
+        if m['t'] == 'n':
+            m['m'] = _dup_names(rng, m['m'], p)
+        if m['t'] != 'd' and rng.random() < p:
+            d = m['p'].rsplit('/', 1)[0] + '/' if '/' in m['p'] else ''
+            if rng.random() < 0.3:
+                d = rng.choice(['inv1/', 'inv2/', ''])
+            if m['t'] == 'n':
+                base = 'in' + _ext_of(m['p'])
+            elif m['p'].endswith('.xml'):
+                base = rng.choice(POOL_XML)
+            else:
+                base = rng.choice(POOL_OTHER)
+            if d + base not in used:
+                used.add(d + base)
+                m['p'] = d + base
+        out.append(m)
+    return out
+
+
 class C12(Check):
     pid = 'C12'
     props_module = 'PagexmlModel.Props.C12'
@@ -121,7 +217,13 @@ class C12(Check):
                   'py7zr list members faithfully and in archive order, that expat treats str / bytes / file content '
                   'alike, and glob\'s directory walk. Archive trees beyond the quantifier (7z in or around other '
                   'containers, corrupt / mislabelled containers, members with an archive extension) are mirrored as an '
-                  'observation only (tagged outside-quantifier: differences recorded, not judged)')
+                  'observation only (tagged outside-quantifier: differences recorded, not judged).  Histories (case kind '
+                  '`reread`): the model is a pure function of the archive content, so the SAME model answer is demanded of '
+                  'every pass over a file in one process (read again, names-only then content, parsed then read, through '
+                  'read_page_archive_file / read_page_archive_files(list | str) / Extractor (iterated twice) / '
+                  'read_page_7z_file / parse_pagexml_files_from_archive, two archives alternately, and after another member '
+                  'set was written under the same file name); that the real code keeps no state between calls is SAMPLED '
+                  'this way, not proved')
     assumptions = ['zipfile, tarfile and py7zr list the regular members of a container in archive order with their exact '
                    'bytes; member names are distinct within one container (zipfile opens members by name)',
                    'posixpath.split/splitext/normpath transcribed by hand (os.sep = "/"), checked on adversarial paths',
@@ -132,7 +234,8 @@ class C12(Check):
                    'tars, …) and that a failed open raises (BadZipFile / ReadError / Bad7zFile, compared as one class)']
     technique = 'Lean 4 proof over hand-written model + tables regenerated from the source by an ast translator + differential correspondence on real containers'
     nontrivial_rule = ('distinct inputs; non-trivial = a container with at least two regular members or a nested '
-                       'container, a path with a separator or a double extension, a route case with at least one document')
+                       'container, a path with a separator or a double extension, a route case with at least one document, '
+                       'a history over an archive with at least two members')
 
     _model_members: Dict[int, Any] = {}
 
@@ -217,16 +320,16 @@ class C12(Check):
         for n in range(0, L + 1):
             for combo in itertools.product(alpha, repeat=n):
                 out.append(Case('paf', {'s': ''.join(combo)}, ['enum']))
-        # every outer kind x every inner zip/tar kind+extension, both modes
-        if not quick:
-            for okind in ('zip', 'tar', 'targz', 'tarbz2'):
-                for iext in C.ACCEPTED_EXTS[:-1]:
-                    for no in (False, True):
-                        t = [{'t': 'f', 'p': 'a.xml', 'd': doc(4)},
-                             {'t': 'n', 'p': 'd/in' + iext, 'k': C.KIND_OF_EXT[iext], 'm': inner},
-                             {'t': 'f', 'p': 'd/z.xml', 'd': doc(5)}]
-                        out.append(Case('archive', {'name': 'o' + C.EXTS_OF_KIND[okind][-1], 'kind': okind,
-                                                    'members': t, 'names_only': no}, ['enum', 'nested=' + iext]))
+        # every outer kind x every inner zip/tar kind+extension, both modes (WAVE 4: the statement's "zip and tar
+        # archives nested inside zip and tar archives" — the quick tier runs the reduced grid outer in {zip, tar})
+        for okind in (('zip', 'tar') if quick else ('zip', 'tar', 'targz', 'tarbz2')):
+            for iext in C.ACCEPTED_EXTS[:-1]:
+                for no in (False, True):
+                    t = [{'t': 'f', 'p': 'a.xml', 'd': doc(4)},
+                         {'t': 'n', 'p': 'd/in' + iext, 'k': C.KIND_OF_EXT[iext], 'm': inner},
+                         {'t': 'f', 'p': 'd/z.xml', 'd': doc(5)}]
+                    out.append(Case('archive', {'name': 'o' + C.EXTS_OF_KIND[okind][-1], 'kind': okind,
+                                                'members': t, 'names_only': no}, ['enum', 'nested=' + iext]))
 
         # -- random structured
         n_arch = 120 if quick else 2500
@@ -264,6 +367,7 @@ class C12(Check):
             s = ''.join(rng.choice(['a', 'b', '.', '..', '/', '\\', '.tar', '.gz', '.bz2', '.zip', '.7z', '.tgz', ' ', 'é'])
                         for _ in range(n))
             out.append(Case('paf', {'s': s}, ['random']))
+        out.extend(self._wave4_cases(rng, quick, doc))
         # WAVE 3: archive trees "beyond the statement" (7z inside zip/tar, archives inside 7z, corrupt or mislabelled
         # containers, members carrying an archive extension: the quantifier is "zip and tar archives nested inside zip
         # and tar archives", "accepted file-name extensions") are mirrored by the model only as an observation; the
@@ -272,6 +376,115 @@ class C12(Check):
             if c.kind == 'archive' and OUTSIDE not in c.tags and \
                     ('beyond' in c.tags or not _judged(c.input['members'], c.input['kind'])):
                 c.tags.append(OUTSIDE)
+            if c.kind == 'reread' and OUTSIDE not in c.tags and not self._reread_judged(c.input):
+                c.tags.append(OUTSIDE)
+        return out
+
+    @staticmethod
+    def _reread_judged(inp) -> bool:
+        states, _ = _reread_plan(inp)
+        return all(_judged(ms, inp['archives'][i]['kind']) for i, ms in states)
+
+    def _wave4_cases(self, rng: random.Random, quick: bool, doc) -> List[Case]:
+        """WAVE 4: (A) histories — the same archive file(s) read several times in one process through every entry
+        point, also after the file was written again; (D) every entry point on a fresh file; (C) rare shapes —
+        the same base name in different directories / in outer and inner archives, more than 10 members"""
+        out: List[Case] = []
+        txt = lambda s: C.hexs(s.encode('utf-8'))  # noqa
+        # member trees: same base name `a.xml` in two directories, an empty member, non-ASCII content
+        flat1 = [{'t': 'd', 'p': 'd/'}, {'t': 'f', 'p': 'd/a.xml', 'd': doc(11)}, {'t': 'f', 'p': 'd/e.txt', 'd': ''},
+                 {'t': 'f', 'p': 'n/a.xml', 'd': doc(12)}, {'t': 'f', 'p': 'nötes.txt', 'd': txt('plain nötes — ünï\n')},
+                 {'t': 'f', 'p': 'b.xml', 'd': doc(13)}]
+        # the member set written over it: one name kept with OTHER content, one name gone, new names
+        flat2 = [{'t': 'f', 'p': 'd/a.xml', 'd': doc(14)}, {'t': 'f', 'p': 'c.xml', 'd': doc(15)},
+                 {'t': 'f', 'p': 'd/new.txt', 'd': txt('nieuw')}, {'t': 'f', 'p': 'b.xml', 'd': doc(16)},
+                 {'t': 'f', 'p': 'z/a.xml', 'd': doc(17)}]
+        in1 = [{'t': 'f', 'p': 'd/a.xml', 'd': doc(18)}, {'t': 'f', 'p': 'q.txt', 'd': '00ff'}, {'t': 'f', 'p': 'a.xml', 'd': doc(19)}]
+        in2 = [{'t': 'f', 'p': 'd/a.xml', 'd': doc(20)}, {'t': 'f', 'p': 'r.txt', 'd': ''}]
+        nest1 = flat1[:4] + [{'t': 'n', 'p': 'sub/in.zip', 'k': 'zip', 'm': in1}, flat1[4],
+                             {'t': 'n', 'p': 'sub2/in.tgz', 'k': 'targz', 'm': in2}, flat1[5]]
+        nest2 = [flat2[0], {'t': 'n', 'p': 'sub/in.zip', 'k': 'zip', 'm': in2}, flat2[1],
+                 {'t': 'n', 'p': 'other/in.tar', 'k': 'tar', 'm': in1}] + flat2[2:]
+        layouts = [('flat', flat1, flat2), ('nested', nest1, nest2)]
+
+        def arch(ext, members, stem='c'):
+            return {'name': stem + ext, 'kind': C.KIND_OF_EXT[ext], 'members': members}
+
+        def reread(archives, passes, tags):
+            return Case('reread', {'archives': archives, 'passes': [dict(p) for p in passes]}, tags)
+        patterns = [['content', 'content'], ['names', 'content'], ['content', 'names'], ['parse', 'parse'],
+                    ['content', 'parse'], ['parse', 'content'], ['content', 'rewrite', 'content'],
+                    ['names', 'rewrite', 'names'], ['parse', 'rewrite', 'parse'], ['peek-content', 'content'],
+                    ['extractor-content', 'extractor-again'], ['list-content', 'str-content'],
+                    ['str-names', 'list-names', 'names']]
+        entry_ops = ['list-content', 'list-names', 'str-content', 'str-names', 'extractor-content', 'extractor-names']
+        for ext in C.ACCEPTED_EXTS:
+            for lname, m1, m2 in layouts:
+                if lname == 'nested' and ext == '.7z':
+                    continue        # a 7z archive stays flat (`_judged`)
+                pats = patterns + ([['7z-content', '7z-content'], ['content', '7z-content'], ['7z-names', 'content']]
+                                   if ext == '.7z' else [])
+                for pat in pats:
+                    passes = [{'op': 'rewrite', 'on': 0, 'members': m2} if op == 'rewrite' else {'op': op, 'on': 0}
+                              for op in pat]
+                    out.append(reread([arch(ext, m1)], passes, ['enum', 'history', 'ext=' + ext, lname]))
+                # (D) every entry point on a fresh file
+                for op in entry_ops + (['7z-content', '7z-names'] if ext == '.7z' else []):
+                    out.append(reread([arch(ext, m1)], [{'op': op, 'on': 0}], ['enum', 'entry', 'ext=' + ext, lname]))
+        # interleaving: two different archives (same member names, other content) read alternately
+        inter = [[('content', 0), ('content', 1), ('content', 0)], [('names', 0), ('content', 1), ('content', 0)],
+                 [('parse', 0), ('parse', 1), ('parse', 0)], [('list-content', [0, 1]), ('list-content', [1, 0])],
+                 [('list-names', [0, 1]), ('content', 1)]]
+        for i, ext in enumerate(C.ACCEPTED_EXTS):
+            for ext_b in (ext, C.ACCEPTED_EXTS[(i + 1) % len(C.ACCEPTED_EXTS)]):
+                nested = i % 2 == 1 and '.7z' not in (ext, ext_b)
+                a, b = arch(ext, nest1 if nested else flat1, 'a'), arch(ext_b, nest2 if nested else flat2, 'b')
+                for pat in inter:
+                    out.append(reread([a, b], [{'op': op, 'on': on} for op, on in pat],
+                                      ['enum', 'interleave', 'ext=' + ext, 'ext=' + ext_b]))
+        # (C) rare shapes as plain archive reads: more than 10 members, the same base name in many directories
+        many = [{'t': 'f', 'p': f'inv{j % 3}/{j // 3:04d}.xml', 'd': doc(30 + j % 4)} for j in range(12)] + \
+               [{'t': 'f', 'p': f'inv{j}/readme.txt', 'd': txt(f'réadme {j}') if j else ''} for j in range(3)]
+        many_n = many[:5] + [{'t': 'n', 'p': 'inv0/in.zip', 'k': 'zip', 'm': many[3:9]},
+                             {'t': 'n', 'p': 'inv1/in.tbz2', 'k': 'tarbz2', 'm': many[6:]}] + many[5:]
+        for ext in C.ACCEPTED_EXTS:
+            for tree, lname in ((many, 'flat'), (many_n, 'nested')):
+                if lname == 'nested' and ext == '.7z':
+                    continue
+                for no in (False, True):
+                    out.append(Case('archive', dict(arch(ext, tree), names_only=no), ['enum', 'samebase', 'many', 'ext=' + ext]))
+        # random: archive reads with duplicate base names and up to 14 members per level
+        for i in range(60 if quick else 700):
+            ext = C.ACCEPTED_EXTS[i % len(C.ACCEPTED_EXTS)]
+            kind = C.KIND_OF_EXT[ext]
+            depth = 0 if kind == 'sevenz' else rng.choice([0, 1, 1, 2])
+            n_max = rng.choice([4, 8]) if kind == 'sevenz' else rng.choice([6, 10, 14])
+            ms = _dup_names(rng, C.rand_members(rng, depth, False, in_kind=kind, n_max=n_max, n_min=n_max // 2))
+            out.append(Case('archive', {'name': rng.choice(['arch', 'ärch', 'v1.0']) + ext, 'kind': kind, 'members': ms,
+                                        'names_only': rng.random() < 0.35}, ['random', 'samebase', 'ext=' + ext]))
+        # random histories: random pass sequences over one or two archives, every entry point, rewrites
+        for i in range(70 if quick else 700):
+            ext = C.ACCEPTED_EXTS[i % len(C.ACCEPTED_EXTS)]
+            exts = [ext] + ([rng.choice(C.ACCEPTED_EXTS[:-1] if quick else C.ACCEPTED_EXTS)] if rng.random() < 0.3 else [])
+
+            def tree(e):
+                kind = C.KIND_OF_EXT[e]
+                ms = C.rand_members(rng, 0 if kind == 'sevenz' else rng.choice([0, 1, 1, 2]), False, in_kind=kind,
+                                    n_max=rng.choice([3, 5]) if kind == 'sevenz' else rng.choice([3, 6, 12]), n_min=1)
+                return _drop_empty_xml(_dup_names(rng, ms, 0.4))
+            archives = [arch(e, tree(e), 'ab'[j]) for j, e in enumerate(exts)]
+            passes = []
+            for _ in range(rng.choice([2, 2, 3, 4])):
+                on = rng.randrange(len(archives))
+                ops = [o for o in READ_OPS if not o.startswith('7z') or exts[on] == '.7z']
+                op = rng.choice(ops + ['content', 'names', 'parse', 'rewrite'])
+                if op == 'rewrite':
+                    passes.append({'op': 'rewrite', 'on': on, 'members': tree(exts[on])})
+                    op = rng.choice(['content', 'names', 'parse', 'list-content', 'extractor-again'])
+                if op.startswith('list') and len(archives) > 1 and rng.random() < 0.5:
+                    on = rng.choice([[0, 1], [1, 0], [0, 0]])
+                passes.append({'op': op, 'on': on})
+            out.append(reread(archives, passes, ['random', 'history', 'ext=' + ext]))
         return out
 
     # ---------------------------------------------------------------- implementation
@@ -290,6 +503,8 @@ class C12(Check):
         try:
             if k == 'archive':
                 return self._impl_archive(case, scratch)
+            if k == 'reread':
+                return self._impl_reread(case, scratch)
             if k == 'routes':
                 return self._impl_routes(case, scratch)
             if k == 'dirs':
@@ -339,6 +554,115 @@ class C12(Check):
         except Exception as e:  # noqa
             out['lib'] = {'err': type(e).__name__}
         return out
+
+    def _impl_reread(self, case: Case, scratch: str) -> Any:
+        """archive file(s) written once, then the passes of the case in order, in this process; every pass is
+        drained completely and kept: at the end the earlier answers are canonicalised again (they must not have
+        been changed by a later call)"""
+        fh, P = _fh(), _parser()
+        inp = json.loads(json.dumps(case.input))
+        archives = inp['archives']
+        paths = [os.path.join(scratch, a['name']) for a in archives]
+        states, plan = _reread_plan(inp)
+        st_out, st_model = [], []
+
+        def write(si: int):
+            i, members = states[si]
+            a = archives[i]
+            with open(paths[i], 'wb') as f:
+                f.write(C.container_bytes(a['kind'], members, scratch))
+            st_model.append(C.model_members(members, scratch))
+            so: Dict[str, Any] = {'on': i}
+            try:    # independent recomputation with the container libraries (oracle input)
+                so['lib'] = [{'source_file': c, 'archived_filename': b, 'archived_filepath': p,
+                              'data': {'sha': C.sha(d)}}
+                             for c, b, p, d in C.lib_list(paths[i], a['kind'], ['/T/' + a['name']])]
+            except Exception as e:  # noqa
+                so['lib'] = {'err': type(e).__name__}
+            # every document member parsed from its text alone: the reference scan of the parse passes
+            so['refs'] = []
+            if any(pl is not None and pl['entry'] == 'parse' for pl in plan):
+                for w in _flat_spec(['/T/' + a['name']], members, a['kind'], False):
+                    if w['archived_filename'].endswith('.xml'):
+                        raw = bytes.fromhex(w['data'])
+                        so['refs'].append(call(lambda: _digest(_scan_view(_quiet(
+                            P.parse_pagexml_file, w['archived_filename'], pagexml_data=raw.decode('utf-8'))))))
+            st_out.append(so)
+        for si in range(len(archives)):
+            write(si)
+        n_written = len(archives)
+        extractors: Dict[int, Any] = {}
+        suspended = []
+        kept = []
+        passes_out = []
+
+        def view(scan):
+            pi = scan.metadata.get('pagefile_info') or {}
+            return {'key': pi.get('archived_filepath'), 'json': _digest(_scan_view(scan)),
+                    'filename': scan.metadata.get('filename', '').replace(scratch, '/T'),
+                    'chain': [s.replace(scratch, '/T') for s in pi.get('source_file', [])]}
+
+        def snapshot(entry, items):
+            return [view(s) for s in items] if entry == 'parse' else self._canon_items(items, scratch)
+        for p, pl in zip(inp['passes'], plan):
+            if pl is None:
+                write(n_written)
+                n_written += 1
+                passes_out.append({'op': 'rewrite'})
+                kept.append(None)
+                continue
+            entry, no, on = pl['entry'], pl['names_only'], pl['ons'][0]
+            path = paths[on]
+            po: Dict[str, Any] = {'op': p['op']}
+            if entry == 'read':
+                r = _drain(lambda: fh.read_page_archive_file(path, filenames_only=no))
+            elif entry == 'list':
+                arg = [paths[o] for o in pl['ons']]
+                r = _drain(lambda: fh.read_page_archive_files(arg, filenames_only=no))
+                po['arg_unchanged'] = arg == [paths[o] for o in pl['ons']]
+            elif entry == 'str':
+                r = _drain(lambda: fh.read_page_archive_files(path, filenames_only=no))
+            elif entry == '7zfile':
+                r = _drain(lambda: fh.read_page_7z_file(path, filenames_only=no))
+            elif entry == 'extractor':
+                def it():
+                    if p['op'] != 'extractor-again' or on not in extractors:
+                        extractors[on] = fh.Extractor(path, filenames_only=no)
+                    return iter(extractors[on])
+                r = _drain(it)
+            elif entry == 'peek':
+                def first():
+                    g = fh.read_page_archive_file(path, filenames_only=no)
+                    suspended.append(g)
+                    for x in g:
+                        yield x
+                        return
+                r = _drain(first)
+            elif entry == 'parse':
+                r = _drain(lambda: P.parse_pagexml_files_from_archive(path))
+            else:
+                raise ValueError(entry)
+            try:
+                po['items'] = snapshot(entry, r['items'])
+            except Exception as e:  # noqa — what was yielded is not (file_info, data) / a scan
+                po['items'] = []
+                r = {'items': [], 'exn': 'Unusable:' + _err(e)}
+            po['exn'] = 'BadArchive' if r['exn'] in BAD_ARCHIVE else r['exn']
+            kept.append((entry, r['items']))
+            passes_out.append(po)
+        for po, k in zip(passes_out, kept):
+            if k is not None:
+                try:
+                    po['unchanged_later'] = snapshot(*k) == po['items']
+                except Exception:  # noqa
+                    po['unchanged_later'] = False
+        for g in suspended:
+            try:
+                g.close()
+            except Exception:  # noqa
+                pass
+        self._model_members[id(case)] = st_model
+        return {'states': st_out, 'passes': passes_out}
 
     def _impl_routes(self, case: Case, scratch: str) -> Any:
         P = _parser()
@@ -445,6 +769,20 @@ class C12(Check):
             return [{'p': 'C12', 'op': 'read', 'args': {'names_only': case.input['names_only'],
                                                         'path': '/T/' + case.input['name'],
                                                         'kind': case.input['kind'], 'members': ms}}]
+        if k == 'reread':
+            sm = self._model_members.get(id(case))
+            if sm is None:
+                self.impl(case)
+                sm = self._model_members[id(case)]
+            states, plan = _reread_plan(case.input)
+            reqs = []
+            for pl in plan:     # the model is pure: the same answer must hold for every pass over the same content
+                for si in (pl['states'] if pl is not None else []):
+                    a = case.input['archives'][states[si][0]]
+                    reqs.append({'p': 'C12', 'op': 'read', 'args': {
+                        'names_only': True if pl['entry'] == 'parse' else pl['names_only'],
+                        'path': '/T/' + a['name'], 'kind': a['kind'], 'members': sm[si]}})
+            return reqs
         if k == 'routes':
             ms = [dict(m, raw='00') if m['t'] == 'n' else m for m in case.input['members']]
             reqs = [{'p': 'C12', 'op': 'glob', 'args': {'members': ms}}]
@@ -481,6 +819,16 @@ class C12(Check):
         # that is yielded unopened, the SHA-256 the harness gave it as `raw`
         return m['data'] == i['data'].get('sha') or C.sha(bytes.fromhex(m['data'])) == i['data'].get('sha')
 
+    def _cmp_read(self, items, exn, m_items, m_exn) -> Optional[str]:
+        if exn != m_exn:
+            return f'exception: impl={exn} model={m_exn}'
+        if len(items) != len(m_items):
+            return f'{len(items)} items yielded, model {len(m_items)}'
+        for n, (i, mi) in enumerate(zip(items, m_items)):
+            if not self._same_item(i, mi):
+                return f'item {n}: impl={short(i)} model={short(mi)}'
+        return None
+
     def compare(self, case, impl_out, model_out):
         k = case.kind
         if k in ('paf', 'dispatch'):
@@ -491,13 +839,31 @@ class C12(Check):
             return None
         if k == 'archive':
             m = model_out[0]['ok']
-            if impl_out['exn'] != m['exn']:
-                return f'exception: impl={impl_out["exn"]} model={m["exn"]}'
-            if len(impl_out['items']) != len(m['items']):
-                return f'{len(impl_out["items"])} items yielded, model {len(m["items"])}'
-            for n, (i, mi) in enumerate(zip(impl_out['items'], m['items'])):
-                if not self._same_item(i, mi):
-                    return f'item {n}: impl={short(i)} model={short(mi)}'
+            return self._cmp_read(impl_out['items'], impl_out['exn'], m['items'], m['exn'])
+        if k == 'reread':
+            _, plan = _reread_plan(case.input)
+            idx = 0
+            for n, (po, pl) in enumerate(zip(impl_out['passes'], plan)):
+                if pl is None:
+                    continue
+                m_items, m_exn = [], None
+                for _ in pl['states']:      # the list dispatcher: one archive after the other, until one raises
+                    a = model_out[idx]['ok']
+                    idx += 1
+                    if m_exn is None:
+                        m_items, m_exn = m_items + a['items'], a['exn']
+                if pl['entry'] == 'parse':
+                    want = [(it['archived_filepath'], it['source_file'], it['archived_filename']) for it in m_items
+                            if it['archived_filename'].endswith('.xml')]
+                    got = [(x['key'], x['chain'], x['filename']) for x in po['items']]
+                    d = None if got == want and po['exn'] == m_exn else \
+                        f'impl={short(got)} exn={po["exn"]} model={short(want)} exn={m_exn}'
+                else:
+                    if pl['entry'] == 'peek':
+                        m_items, m_exn = m_items[:1], (None if m_items else m_exn)
+                    d = self._cmp_read(po['items'], po['exn'], m_items, m_exn)
+                if d is not None:
+                    return f'pass {n} ({po["op"]}{", " + pl["history"] if pl["history"] else ""}): {d}'
             return None
         if k == 'routes':
             docs = {m['p'] for m in case.input['members'] if m['t'] == 'f' and m['p'].endswith('.xml')}
@@ -537,6 +903,13 @@ class C12(Check):
 
     # ---------------------------------------------------------------- oracle
     def oracle(self, case: Case, out: Any) -> List[Finding]:
+        # an outcome of the real code that the judgement cannot even read is an outcome to report, never a crash (exit 2)
+        try:
+            return self._oracle(case, out)
+        except Exception as e:  # noqa
+            return [Finding('C12:answer-shape', f'the outcome of the real code cannot be judged: {type(e).__name__}: {e}', case, out)]
+
+    def _oracle(self, case: Case, out: Any) -> List[Finding]:
         fs: List[Finding] = []
 
         def bad(key, what):
@@ -553,52 +926,50 @@ class C12(Check):
         elif k == 'archive':
             if 'beyond' in case.tags or not _judged(case.input['members'], case.input['kind']):
                 return fs
-            ext = [e for e in C.ACCEPTED_EXTS if case.input['name'].endswith(e)]
-            ext = max(ext, key=len) if ext else '?'
             want = _flat_spec(['/T/' + case.input['name']], case.input['members'], case.input['kind'],
                               case.input['names_only'])
-            got = out['items']
-            if out['exn'] is not None:
-                key = f'ext={ext}' if (not got and out['exn'] == 'ValueError') else f'aborted:{out["exn"]}'
-                bad(key, f'reading {case.input["name"]} raised {out["exn"]} after {len(got)} items')
+            self._judge_read(bad, case.input['name'], case.input['kind'], case.input['members'],
+                             case.input['names_only'], want, out['items'], out['exn'], out.get('lib'))
+        elif k == 'reread':
+            # the statement judged on EVERY pass: "reading an archive yields every regular member exactly once, in
+            # archive order, with its base name, path, exact bytes and chain" holds for a file that was read before
+            # and for a file written again just as for a fresh one
+            if OUTSIDE in case.tags or not self._reread_judged(case.input):
                 return fs
-            for it in got:
-                if it['data'] is not None and 'type' in it['data']:
-                    bad('content-type', f'member content is a {it["data"]["type"]}, not bytes')
-                    return fs
+            states, plan = _reread_plan(case.input)
+            for n, (po, pl) in enumerate(zip(out['passes'], plan)):
+                if pl is None:
+                    continue
+                a0 = case.input['archives'][pl['ons'][0]]
+                entry, no = pl['entry'], pl['names_only']
+                # key suffix = the class of history / entry point, never the input
+                suffix = ':' + pl['history'] if pl['history'] else (':via=' + entry if entry not in ('read', 'parse') else '')
+                where = f'pass {n} ({po["op"]}{", " + pl["history"] if pl["history"] else ""}) '
 
-            def same(a, w):
-                if any(a[x] != w[x] for x in ('source_file', 'archived_filename', 'archived_filepath')):
-                    return False
-                if w['data'] is None or a['data'] is None:
-                    return w['data'] is None and a['data'] is None
-                return a['data']['sha'] == C.sha(bytes.fromhex(w['data']))
-            if len(got) != len(want) or not all(same(a, w) for a, w in zip(got, want)):
-                nested_exts = sorted({e for m in self._nested_paths(case.input['members']) for e in C.ACCEPTED_EXTS if m.endswith(e)})
-                gk = [(a['source_file'], a['archived_filepath']) for a in got]
-                wk = [(w['source_file'], w['archived_filepath']) for w in want]
-                if gk == wk:
-                    key = 'names-only' if case.input['names_only'] else f'content:{case.input["kind"]}'
-                elif sorted(map(str, gk)) == sorted(map(str, wk)):
-                    key = f'order:{case.input["kind"]}'
-                elif [x[1] for x in gk] == [x[1] for x in wk]:
-                    key = 'chain'
-                elif nested_exts and len(gk) != len(wk):
-                    missing = [e for e in nested_exts if any(p.endswith(e) for _, p in gk)]
-                    key = 'nested=' + (missing[0] if missing else nested_exts[0])
-                else:
-                    key = f'members:{case.input["kind"]}'
-                bad(key, f'{case.input["name"]}: yielded {short(gk, 300)} expected {short(wk, 300)}')
-                return fs
-            # the same list recomputed with the container libraries
-            lib = out.get('lib')
-            if isinstance(lib, list):
-                if len(lib) != len(got) or any(
-                        (a['source_file'], a['archived_filename'], a['archived_filepath']) !=
-                        (l['source_file'], l['archived_filename'], l['archived_filepath']) or
-                        (a['data'] or {}).get('sha') != (l['data'] or {}).get('sha') for a, l in zip(got, lib)):
-                    bad(f'library-listing:{case.input["kind"]}', 'the members differ from an independent listing with '
-                        f'the container library: {short([l["archived_filepath"] for l in lib], 300)}')
+                def badp(key, what, where=where):
+                    bad(key, where + what)
+                want, lib, members = [], [], []
+                for si in pl['states']:
+                    a = case.input['archives'][states[si][0]]
+                    members = members + states[si][1]
+                    want += _flat_spec(['/T/' + a['name']], states[si][1], a['kind'], bool(no) and entry != 'parse')
+                    sl = out['states'][si].get('lib')
+                    lib = None if lib is None or not isinstance(sl, list) else lib + sl
+                if po.get('unchanged_later') is False:
+                    badp('earlier-answer-changed' + suffix, 'what this pass yielded was changed by a later call')
+                if po.get('arg_unchanged') is False:
+                    badp('argument-mutated', 'the list of archive files passed in was changed')
+                if entry == 'parse':
+                    docs = [w for w in want if w['archived_filename'].endswith('.xml')]
+                    refs = [r for si in pl['states'] for r in out['states'][si]['refs']]
+                    self._judge_parse(badp, a0['name'], docs, refs, po['items'], po['exn'], suffix)
+                    continue
+                if lib is not None and no:
+                    lib = [dict(l, data=None) for l in lib]
+                if entry == 'peek':
+                    want, lib = want[:1], (lib[:1] if lib is not None else None)
+                kinds = '+'.join(dict.fromkeys(case.input['archives'][o]['kind'] for o in pl['ons']))
+                self._judge_read(badp, a0['name'], kinds, members, bool(no), want, po['items'], po['exn'], lib, suffix)
         elif k == 'routes':
             docs = [m['p'] for m in case.input['members'] if m['t'] == 'f' and m['p'].endswith('.xml')]
             for p in docs:
@@ -639,6 +1010,70 @@ class C12(Check):
                 bad(f'route={case.input["data"]}:json', f'single-file route {case.input["data"]}: {short(out)}')
         return fs
 
+    def _judge_read(self, bad, name, kind, members, names_only, want, got, exn, lib, suffix='') -> None:
+        """one complete read of an archive judged against the statement: `want` = every regular member once, in
+        archive order, with base name, path, bytes (None in names-only mode) and chain"""
+        ext = _ext_of(name)
+        if exn is not None:
+            key = f'ext={ext}' if (not got and exn == 'ValueError') else f'aborted:{exn}'
+            bad(key + suffix, f'reading {name} raised {exn} after {len(got)} items')
+            return
+        for it in got:
+            if it['data'] is not None and 'type' in it['data']:
+                bad('content-type' + suffix, f'member content is a {it["data"]["type"]}, not bytes')
+                return
+
+        def same(a, w):
+            if any(a[x] != w[x] for x in ('source_file', 'archived_filename', 'archived_filepath')):
+                return False
+            if w['data'] is None or a['data'] is None:
+                return w['data'] is None and a['data'] is None
+            return a['data']['sha'] == C.sha(bytes.fromhex(w['data']))
+        if len(got) != len(want) or not all(same(a, w) for a, w in zip(got, want)):
+            nested_exts = sorted({e for m in self._nested_paths(members) for e in C.ACCEPTED_EXTS if m.endswith(e)})
+            gk = [(a['source_file'], a['archived_filepath']) for a in got]
+            wk = [(w['source_file'], w['archived_filepath']) for w in want]
+            if gk == wk:
+                key = 'names-only' if names_only else f'content:{kind}'
+            elif sorted(map(str, gk)) == sorted(map(str, wk)):
+                key = f'order:{kind}'
+            elif [x[1] for x in gk] == [x[1] for x in wk]:
+                key = 'chain'
+            elif nested_exts and len(gk) != len(wk):
+                missing = [e for e in nested_exts if any(p.endswith(e) for _, p in gk)]
+                key = 'nested=' + (missing[0] if missing else nested_exts[0])
+            else:
+                key = f'members:{kind}'
+            bad(key + suffix, f'{name}: yielded {short(gk, 300)} expected {short(wk, 300)}')
+            return
+        # the same list recomputed with the container libraries
+        if isinstance(lib, list):
+            if len(lib) != len(got) or any(
+                    (a['source_file'], a['archived_filename'], a['archived_filepath']) !=
+                    (l['source_file'], l['archived_filename'], l['archived_filepath']) or
+                    (a['data'] or {}).get('sha') != (l['data'] or {}).get('sha') for a, l in zip(got, lib)):
+                bad(f'library-listing:{kind}' + suffix, 'the members differ from an independent listing with '
+                    f'the container library: {short([l["archived_filepath"] for l in lib], 300)}')
+
+    def _judge_parse(self, bad, name, docs, refs, got, exn, suffix='') -> None:
+        """one parse pass over an archive: the document members in archive order, each scan equal (JSON view apart
+        from file name and archive information) to the same document parsed from its text alone"""
+        route = 'archive' + _ext_of(name)
+        if len(refs) != len(docs) or any('ok' not in r for r in refs):
+            return      # not a usable document: generator problem, not judged
+        if exn is not None:
+            bad(f'route={route}:raised' + suffix, f'parsing {name} raised {exn} after {len(got)} scans')
+            return
+        keys = [x['key'] for x in got]
+        want = [w['archived_filepath'] for w in docs]
+        if keys != want:
+            bad(f'route={route}:members' + suffix, f'parsing {name} yielded {short(keys, 300)} expected {short(want, 300)}')
+            return
+        for x, r in zip(got, refs):
+            if x['json'] != r['ok']:
+                bad(f'route={route}:json' + suffix, f'parsing {name}: scan of {x["key"]} differs from the scan parsed from text')
+                return
+
     def _nested_paths(self, members) -> List[str]:
         out = []
         for m in members:
@@ -658,6 +1093,8 @@ class C12(Check):
             return _count(case.input['members']) >= 2
         if k in ('routes', 'dirs'):
             return any(m['t'] == 'f' and m['p'].endswith('.xml') for m in case.input['members'])
+        if k == 'reread':
+            return any(_count(a['members']) >= 2 for a in case.input['archives'])
         return True
 
     def shrink_candidates(self, case: Case):
@@ -671,6 +1108,25 @@ class C12(Check):
                 yield Case(k, dict(case.input, dir=''), case.tags)
             if case.input['stem'] != 'x':
                 yield Case(k, dict(case.input, stem='x'), case.tags)
+        elif k == 'reread':
+            inp = case.input
+            ps = inp['passes']
+            for i in range(len(ps)):        # fewer passes first
+                rest = ps[:i] + ps[i + 1:]
+                if any(p['op'] != 'rewrite' for p in rest):
+                    yield Case(k, dict(inp, passes=rest), case.tags)
+            for i, p in enumerate(ps):
+                if isinstance(p.get('on'), list) and len(p['on']) > 1:
+                    for o in p['on']:
+                        yield Case(k, dict(inp, passes=ps[:i] + [dict(p, on=[o])] + ps[i + 1:]), case.tags)
+            for j, a in enumerate(inp['archives']):
+                for ms in _shrink_members(a['members']):
+                    yield Case(k, dict(inp, archives=inp['archives'][:j] + [dict(a, members=ms)] + inp['archives'][j + 1:]),
+                               case.tags)
+            for i, p in enumerate(ps):
+                if p['op'] == 'rewrite':
+                    for ms in _shrink_members(p['members']):
+                        yield Case(k, dict(inp, passes=ps[:i] + [dict(p, members=ms)] + ps[i + 1:]), case.tags)
         elif k in ('archive', 'routes', 'dirs'):
             for ms in _shrink_members(case.input['members']):
                 yield Case(k, dict(case.input, members=ms), case.tags)
